@@ -41,8 +41,8 @@ def deviations(b, multibuf=False):
     refg = refg[0] if refg else max(gs, key=lambda g: len(g["as"]))
     out = set()
     for g in gs:
-        if g is refg:
-            continue
+        if g is refg or ("cl" in g and g["cl"] == refg.get("cl")):
+            continue            # equal to the reference in the specification's sense (TLC decided): not a deviation
         if g["r"] != refg["r"]:
             what = "ok-where-%s-errs" % ref if g["r"] == 1 else "err-where-%s-ok" % ref
         elif b["kind"] == "disagree-multi" and g.get("nd") != refg.get("nd"):
